@@ -1,8 +1,17 @@
 import DryocVerif.Model.Encoding
 import DryocVerif.Model.SecretBox
 import DryocVerif.Model.Sign
+import DryocVerif.Model.EncodingStruct
+import DryocVerif.Proofs.EncodingExtra
+import DryocVerif.Properties.C01
 /-
 C16 — byte and serde encodings round-trip and enforce fixed lengths.
+
+Success AND failure halves: `…_ok_iff` / `fixed_len_strict` say when decoding succeeds and
+with what; `…_err_iff` say when it fails; `…_never_panics` exclude the third outcome.
+Whole objects: `from_bytes ∘ to_bytes = id` and `de ∘ ser = id` on boxes, sealed boxes and
+signed messages, and the decoded object still decrypts / verifies.
+Defect E13 (pre-fix visitors) is kept as counter-models `deFixedOld`, `deHeapOld`.
 -/
 namespace DryocVerif.Properties.C16
 open DryocVerif DryocVerif.Model.Encoding
@@ -42,9 +51,31 @@ theorem visitSeqHeapGo_spec (es acc : Bytes) : visitSeqHeapGo es acc = acc ++ es
   | nil => simp [visitSeqHeapGo]
   | cons e es ih => simp [visitSeqHeapGo, ih]
 
-/-- resizable containers decode to exactly the payload, whatever its length (in particular `[]` ↦ `[]`) -/
+/-- **failure half**: decoding a fixed-length container fails iff the encoding does not hold
+exactly `n` bytes (together with `fixed_len_strict` and `deFixed_never_panics`: the outcome
+is completely determined) -/
+theorem deFixed_err_iff (n : Nat) (enc : Enc) : deFixed n enc = .err ↔ enc.payload.length ≠ n :=
+  Proofs.EncodingExtra.deFixed_err_iff n enc
+
+/-- closed form of the fixed-length `Deserialize` -/
+theorem deFixed_eq (n : Nat) (enc : Enc) :
+    deFixed n enc = if enc.payload.length = n then .ok enc.payload else .err :=
+  Proofs.EncodingExtra.deFixed_eq n enc
+
+/-- resizable containers decode to exactly the payload, whatever its length (in particular `[]` ↦ `[]`).
+
+NOTE on defect E13 ("heap visitors no longer panic"): `deHeap` models the REPAIRED visitor
+(`let idx = arr.len(); arr.resize(idx + 1, 0); arr[idx] = elem`), whose index is in bounds by
+construction, so the model has no `.panic` branch and "never panics" is true of it by
+totalisation.  The content is the equation below (every element kept, in order, nothing
+added).  The pre-fix visitor IS modelled separately (`deHeapOld`) and is proved to panic:
+`deHeapOld_seq_panics`, `deHeapOld_bytes_panics`. -/
 theorem deHeap_spec (enc : Enc) : deHeap enc = .ok enc.payload := by
   cases enc <;> simp [deHeap, Enc.payload, visitSeqHeapGo_spec]
+
+/-- about the repaired shape only (see the note at `deHeap_spec`) -/
+theorem deHeap_never_panics (enc : Enc) : deHeap enc ≠ .panic := by
+  rw [deHeap_spec]; simp
 
 /-- serialise then deserialise reproduces the value: fixed-length containers of the right length … -/
 theorem de_ser_fixed (n : Nat) (bs : Bytes) (h : bs.length = n) : deFixed n (ser bs) = .ok bs := by
@@ -61,6 +92,99 @@ theorem de_seq_fixed (n : Nat) (bs : Bytes) (h : bs.length = n) : deFixed n (.se
 theorem tryFromSlice_ok_iff (n : Nat) (bs a : Bytes) : tryFromSlice n bs = .ok a ↔ bs.length = n ∧ a = bs := by
   simp only [tryFromSlice]; split <;> simp_all [eq_comm]
 
+theorem tryFromSlice_err_iff (n : Nat) (bs : Bytes) : tryFromSlice n bs = .err ↔ bs.length ≠ n :=
+  Proofs.EncodingExtra.tryFromSlice_err_iff n bs
+
+/-! ### byte framing (`from_bytes` / `to_bytes`) -/
+
+/-- **failure half** of `DryocSecretBox::from_bytes` / `DryocBox::from_bytes`: an error iff
+fewer than 16 bytes (no room for the tag); never a panic -/
+theorem fromBytes_err_iff (bs : Bytes) : Model.SecretBox.fromBytes bs = .err ↔ bs.length < 16 :=
+  Proofs.EncodingExtra.fromBytes_err_iff bs
+
+/-- `DryocBox::from_sealed_bytes`: an error iff fewer than 48 bytes (ephemeral key + tag) -/
+theorem fromSealedBytes_err_iff (bs : Bytes) :
+    Model.SecretBox.fromSealedBytes bs = .err ↔ bs.length < 48 :=
+  Proofs.EncodingExtra.fromSealedBytes_err_iff bs
+
+/-- `SignedMessage::from_bytes`: an error iff fewer than 64 bytes (the signature) -/
+theorem signedFromBytes_err_iff (bs : Bytes) : Model.Sign.fromBytes bs = .err ↔ bs.length < 64 :=
+  Proofs.EncodingExtra.signedFromBytes_err_iff bs
+
+theorem fromBytes_never_panics (bs : Bytes) : Model.SecretBox.fromBytes bs ≠ .panic :=
+  Proofs.EncodingExtra.fromBytes_never_panics bs
+
+theorem fromSealedBytes_never_panics (bs : Bytes) : Model.SecretBox.fromSealedBytes bs ≠ .panic :=
+  Proofs.EncodingExtra.fromSealedBytes_never_panics bs
+
+theorem signedFromBytes_never_panics (bs : Bytes) : Model.Sign.fromBytes bs ≠ .panic :=
+  Proofs.EncodingExtra.signedFromBytes_never_panics bs
+
+/-- non-vacuity witnesses for the failure half: 15 / 47 / 63 bytes fail, 16 / 48 / 64 do not -/
+example : Model.SecretBox.fromBytes (zeros 15) = .err ∧ Model.SecretBox.fromBytes (zeros 16) ≠ .err ∧
+    Model.SecretBox.fromSealedBytes (zeros 47) = .err ∧ Model.SecretBox.fromSealedBytes (zeros 48) ≠ .err ∧
+    Model.Sign.fromBytes (zeros 63) = .err ∧ Model.Sign.fromBytes (zeros 64) ≠ .err ∧
+    deFixed 24 (.bytes (zeros 23)) = .err ∧ deFixed 24 (.seq (zeros 24)) ≠ .err := by decide
+
+/-- `VecBox::into_vec` (resize, `rotate_right(16)`, copy the tag in front) produces the same
+bytes as `to_bytes` / `to_vec` (re-exported from C01) -/
+theorem intoVec_eq_toBytes (b : Model.SecretBox.Box) (hepk : b.epk = none) :
+    Model.SecretBox.intoVec b = Model.SecretBox.toBytes b :=
+  Properties.C01.forms_agree_intoVec_toBytes b hepk
+
+/-- `from_bytes ∘ to_bytes = id` on a whole box object (16-byte tag — in Rust the type
+`Mac = [u8; 16]` —, no ephemeral key) -/
+theorem fromBytes_toBytes_box (b : Model.SecretBox.Box) (ht : b.tag.length = 16) (he : b.epk = none) :
+    Model.SecretBox.fromBytes (Model.SecretBox.toBytes b) = .ok b :=
+  Proofs.EncodingExtra.fromBytes_toBytes b ht he
+
+/-- … and `to_bytes ∘ from_bytes = id` on whatever `from_bytes` accepts -/
+theorem toBytes_fromBytes (bs : Bytes) (b : Model.SecretBox.Box)
+    (h : Model.SecretBox.fromBytes bs = .ok b) : Model.SecretBox.toBytes b = bs :=
+  Proofs.EncodingExtra.toBytes_fromBytes bs b h
+
+theorem toBytes_fromSealedBytes (bs : Bytes) (b : Model.SecretBox.Box)
+    (h : Model.SecretBox.fromSealedBytes bs = .ok b) : Model.SecretBox.toBytes b = bs :=
+  Proofs.EncodingExtra.toBytes_fromSealedBytes bs b h
+
+/-- **a box still decrypts after the byte round trip**: `from_bytes(to_bytes(b))` succeeds and
+the object it yields decrypts to exactly what `b` decrypts to (same `Ok(message)`, same
+`Err`), for every instantiation of the primitives, nonce and key -/
+theorem decrypt_after_roundtrip (P : Model.SecretBox.Prims) (b : Model.SecretBox.Box) (n k : Bytes)
+    (ht : b.tag.length = 16) (he : b.epk = none) :
+    ∃ b', Model.SecretBox.fromBytes (Model.SecretBox.toBytes b) = .ok b' ∧
+      Model.SecretBox.objDecrypt P b' n k = Model.SecretBox.objDecrypt P b n k :=
+  ⟨b, Proofs.EncodingExtra.fromBytes_toBytes b ht he, rfl⟩
+
+/-- the same through `into_vec` (the other serialiser of a `VecBox`) -/
+theorem decrypt_after_intoVec_roundtrip (P : Model.SecretBox.Prims) (b : Model.SecretBox.Box)
+    (n k : Bytes) (ht : b.tag.length = 16) (he : b.epk = none) :
+    ∃ b', Model.SecretBox.fromBytes (Model.SecretBox.intoVec b) = .ok b' ∧
+      Model.SecretBox.objDecrypt P b' n k = Model.SecretBox.objDecrypt P b n k := by
+  rw [intoVec_eq_toBytes b he]; exact decrypt_after_roundtrip P b n k ht he
+
+/-- public-key boxes: `DryocBox::decrypt` after the round trip -/
+theorem boxDecrypt_after_roundtrip (P : Model.SecretBox.Prims) (b : Model.SecretBox.Box)
+    (n pk sk : Bytes) (ht : b.tag.length = 16) (he : b.epk = none) :
+    ∃ b', Model.SecretBox.fromBytes (Model.SecretBox.toBytes b) = .ok b' ∧
+      Model.SecretBox.objBoxDecrypt P b' n pk sk = Model.SecretBox.objBoxDecrypt P b n pk sk :=
+  ⟨b, Proofs.EncodingExtra.fromBytes_toBytes b ht he, rfl⟩
+
+/-- **a sealed box still unseals after the byte round trip** (`from_sealed_bytes(to_bytes(b))`),
+for a sealed box with its 32-byte ephemeral key and 16-byte tag -/
+theorem unseal_after_roundtrip (P : Model.SecretBox.Prims) (b : Model.SecretBox.Box)
+    (rpk rsk epk : Bytes) (ht : b.tag.length = 16) (he : b.epk = some epk) (hel : epk.length = 32) :
+    ∃ b', Model.SecretBox.fromSealedBytes (Model.SecretBox.toBytes b) = .ok b' ∧
+      Model.SecretBox.objUnseal P b' rpk rsk = Model.SecretBox.objUnseal P b rpk rsk :=
+  ⟨b, Proofs.EncodingExtra.fromSealedBytes_toBytes b ht epk he hel, rfl⟩
+
+/-- non-vacuity witness for the hypotheses of the three theorems above -/
+example : (⟨none, zeros 16, [1, 2, 3]⟩ : Model.SecretBox.Box).tag.length = 16 ∧
+    (⟨some (zeros 32), zeros 16, [1, 2, 3]⟩ : Model.SecretBox.Box).epk = some (zeros 32) ∧
+    (zeros 32).length = 32 ∧
+    Model.SecretBox.fromSealedBytes (Model.SecretBox.toBytes ⟨some (zeros 32), zeros 16, [1, 2, 3]⟩)
+      = .ok ⟨some (zeros 32), zeros 16, [1, 2, 3]⟩ := by decide
+
 /-- `from_bytes ∘ to_bytes = id` for a (secret) box with a 16-byte tag: libsodium's combined layout `tag ‖ c` -/
 theorem fromBytes_toBytes (tag data : Bytes) (h : tag.length = 16) :
     Model.SecretBox.fromBytes (Model.SecretBox.toBytes ⟨none, tag, data⟩) = .ok ⟨none, tag, data⟩ := by
@@ -74,10 +198,102 @@ theorem fromSealedBytes_toBytes (epk tag data : Bytes) (he : epk.length = 32) (h
   simp [Model.SecretBox.fromSealedBytes, Model.SecretBox.toBytes, Model.SecretBox.SEALBYTES, Model.SecretBox.MACBYTES, he, h,
         List.drop_append, h48, this]
 
-/-- signed message layout `sig ‖ m` -/
+/-- `SignedMessage::to_bytes` lays out `sig ‖ m` (`Model.Sign.toBytes`, per /repo/src/sign.rs) -/
+theorem signed_toBytes_layout (sig m : Bytes) : Model.Sign.toBytes (sig, m) = sig ++ m := rfl
+
+/-- `SignedMessage::from_bytes ∘ to_bytes = id` (64-byte signature — in Rust the type) -/
 theorem signed_fromBytes_toBytes (sig m : Bytes) (h : sig.length = 64) :
-    Model.Sign.fromBytes (sig ++ m) = .ok (sig, m) := by
-  simp [Model.Sign.fromBytes, h, List.take_append, List.drop_append]
+    Model.Sign.fromBytes (Model.Sign.toBytes (sig, m)) = .ok (sig, m) :=
+  Proofs.EncodingExtra.signed_fromBytes_toBytes sig m h
+
+/-- `to_bytes ∘ from_bytes = id` on whatever `from_bytes` accepts, and the signature part
+then has 64 bytes -/
+theorem signed_toBytes_fromBytes (bs : Bytes) (sm : Bytes × Bytes)
+    (h : Model.Sign.fromBytes bs = .ok sm) : Model.Sign.toBytes sm = bs ∧ sm.1.length = 64 :=
+  Proofs.EncodingExtra.signed_toBytes_fromBytes bs sm h
+
+/-- **a signed message still verifies (or still fails to) after the byte round trip** -/
+theorem verify_after_roundtrip (H : Bytes → Bytes) (sm : Bytes × Bytes) (pk : Bytes)
+    (h : sm.1.length = 64) :
+    ∃ sm', Model.Sign.fromBytes (Model.Sign.toBytes sm) = .ok sm' ∧
+      Model.Sign.verifyMessage H sm' pk = Model.Sign.verifyMessage H sm pk :=
+  ⟨sm, Proofs.EncodingExtra.signed_fromBytes_toBytes sm.1 sm.2 h, rfl⟩
+
+/-! ### derived `Serialize` / `Deserialize` of the container structs (fields in order) -/
+
+/-- **`de ∘ ser = id` on a whole box struct**: `tag` through the fixed-length visitor
+(`deFixed 16`), `data` through the resizable one (`deHeap`), `ephemeral_pk: Option<_>`
+through `deFixed 32` when present — the fields in declaration order, as serde derives it -/
+theorem deBox_serBox (b : Model.SecretBox.Box) (ht : b.tag.length = 16)
+    (he : ∀ e, b.epk = some e → e.length = 32) : deBox (serBox b) = .ok b :=
+  Proofs.EncodingExtra.deBox_serBox b ht he
+
+/-- exact success condition of the derived `Deserialize` on ARBITRARY field encodings (byte
+string or element sequence, independently per field) -/
+theorem deBox_ok_iff (e : EncBox) (b : Model.SecretBox.Box) :
+    deBox e = .ok b ↔
+      e.tag.payload.length = 16 ∧ (∀ x, e.epk = some x → x.payload.length = 32) ∧
+      b = ⟨e.epk.map Enc.payload, e.tag.payload, e.data.payload⟩ :=
+  Proofs.EncodingExtra.deBox_ok_iff e b
+
+theorem deBox_never_panics (e : EncBox) : deBox e ≠ .panic :=
+  Proofs.EncodingExtra.deBox_never_panics e
+
+/-- `decrypt (de (ser box)) = decrypt box` -/
+theorem decrypt_after_serde (P : Model.SecretBox.Prims) (b : Model.SecretBox.Box) (n k : Bytes)
+    (ht : b.tag.length = 16) (he : ∀ e, b.epk = some e → e.length = 32) :
+    ∃ b', deBox (serBox b) = .ok b' ∧
+      Model.SecretBox.objDecrypt P b' n k = Model.SecretBox.objDecrypt P b n k ∧
+      ∀ rpk rsk, Model.SecretBox.objUnseal P b' rpk rsk = Model.SecretBox.objUnseal P b rpk rsk :=
+  ⟨b, Proofs.EncodingExtra.deBox_serBox b ht he, rfl, fun _ _ => rfl⟩
+
+theorem deSigned_serSigned (sm : Bytes × Bytes) (h : sm.1.length = 64) :
+    deSigned (serSigned sm) = .ok sm :=
+  Proofs.EncodingExtra.deSigned_serSigned sm h
+
+theorem deSigned_ok_iff (e : EncSigned) (sm : Bytes × Bytes) :
+    deSigned e = .ok sm ↔
+      e.signature.payload.length = 64 ∧ sm = (e.signature.payload, e.message.payload) :=
+  Proofs.EncodingExtra.deSigned_ok_iff e sm
+
+/-- non-vacuity witness: a sealed-box struct with the tag given as a JSON element sequence
+and the key as a byte string decodes; a 15-element tag does not -/
+example : deBox ⟨some (.bytes (zeros 32)), .seq (zeros 16), .seq [1, 2]⟩
+      = .ok ⟨some (zeros 32), zeros 16, [1, 2]⟩ ∧
+    deBox ⟨none, .seq (zeros 15), .seq [1, 2]⟩ = .err := by decide
+
+/-! ### E13: the pre-fix visitors (counter-models from `git show 791ff25^`, `b1445e8^` in /repo) -/
+
+/-- the OLD fixed-length `visit_seq` accepted every element sequence and returned `n` bytes
+(zero-padding short input, truncating long input) … -/
+theorem deFixedOld_seq_accepts (n : Nat) (es : Bytes) :
+    ∃ a, Proofs.EncodingExtra.deFixedOld n (.seq es) = .ok a ∧ a.length = n :=
+  Proofs.EncodingExtra.deFixedOld_seq_accepts n es
+
+/-- … so `fixed_len_strict` is false of it for every sequence of the wrong length -/
+theorem deFixedOld_not_strict (n : Nat) (es : Bytes) (h : es.length ≠ n) :
+    ¬ (∀ a, Proofs.EncodingExtra.deFixedOld n (.seq es) = .ok a ↔
+        (Enc.seq es).payload.length = n ∧ a = (Enc.seq es).payload) :=
+  Proofs.EncodingExtra.deFixedOld_not_strict n es h
+
+/-- the OLD `HeapBytes` visitor (serde_json: no size hint) panicked on every array of two
+or more elements … -/
+theorem deHeapOld_seq_panics (es : Bytes) (h : 2 ≤ es.length) :
+    Proofs.EncodingExtra.deHeapOld none (.seq es) = .panic :=
+  Proofs.EncodingExtra.deHeapOld_seq_panics es h
+
+/-- … and, through the old `HeapBytes::from(&[u8])`, on every non-empty byte string -/
+theorem deHeapOld_bytes_panics (hint : Option Nat) (bs : Bytes) (h : bs ≠ []) :
+    Proofs.EncodingExtra.deHeapOld hint (.bytes bs) = .panic :=
+  Proofs.EncodingExtra.deHeapOld_bytes_panics hint bs h
+
+/-- the documented symptoms of E13, on the counter-models vs the repaired models -/
+example : Proofs.EncodingExtra.deFixedOld 24 (.seq [1, 2, 3]) = .ok ([1, 2, 3] ++ zeros 21) ∧
+    Proofs.EncodingExtra.deFixedOld 24 (.seq (List.replicate 25 7)) = .ok (List.replicate 24 7) ∧
+    Proofs.EncodingExtra.deHeapOld none (.seq [1, 2, 3]) = .panic ∧
+    Proofs.EncodingExtra.deHeapOld none (.seq []) = .ok [0] ∧
+    deFixed 24 (.seq [1, 2, 3]) = .err ∧ deHeap (.seq [1, 2, 3]) = .ok [1, 2, 3] ∧
+    deHeap (.seq []) = .ok [] := by decide
 
 /-- non-vacuity / regression: 3 and 25 elements for a 24-byte array are rejected (the repaired defect) -/
 example : deFixed 24 (.seq [1, 2, 3]) = .err ∧ deFixed 24 (.seq (List.replicate 25 7)) = .err ∧
